@@ -973,7 +973,7 @@ class Patron(object):
                 secured = False # non tls socket connection
                 defaultPort = 80
             hostname, port = httping.normalizeHostPort(hostname, port=port, defaultPort=defaultPort)
-            path = splits.path
+            path = splits.path or u'/'  # location without path means root
             query = splits.query
             fragment = splits.fragment
 
